@@ -97,7 +97,7 @@ def run(ctx):
         ctx.violation("harness c02 does not compile against the current tree", {"kind": "tie-broken", "correspondence": "harness/c02.cpp", "log": out[-3000:]}, nofail=True)
         return
     quick = ctx.tier == "quick"
-    n = 8000 if quick else 500000
+    n = 16000 if quick else 600000
     found_input = False
     r = verif.run_stream(exe, "relate-dbl", ctx.seed, n, ctx.work, shards=8, driver_exe=DRV, timeout=6000)
     corr = {"relate-dbl": {"cases": r["cases"], "disagreements": len(r["disagreements"]) + r.get("more_disagreements", 0),
